@@ -40,6 +40,14 @@ func c19(ctx *Ctx) (*Outcome, error) {
 		cases = append(cases, c)
 	}
 	cases = append(cases, c19Shapes(ctx)...)
+	for i := 0; i < 22; i++ {
+		// keywords the generator does not implement today, next to ordinary objects, maps and arrays
+		c := ignoredKeywordCase(i)
+		if i%2 == 0 {
+			c.Args = []string{"--extra-imports"}
+		}
+		cases = append(cases, c)
+	}
 	for i := 0; i < 5; i++ {
 		// format-typed strings fed texts next to the canonical forms (empty, truncated, with zone suffix ...)
 		c := lenientFormatCase(i)
